@@ -148,6 +148,12 @@ func refpack(m Member) []bool {
 }
 
 func spell(m Member, how string) (string, bool) {
+	if how == "HEX" {
+		// the hexadecimal spelling with the upper-case prefix 0X (math/big accepts both; the same digits must give
+		// the same bits and the same inferred size)
+		s, ok := spell(m, "hex")
+		return strings.Replace(s, "0x", "0X", 1), ok
+	}
 	switch m.T.Kind {
 	case "bool":
 		v := bi(m.Vals[0]).Sign() != 0
@@ -437,7 +443,7 @@ func runSizes(ctx *runner.Ctx, k cs) {
 			ctx.Outcome(fmt.Sprintf("sizes-negative-recorded/text=%d,go=%d", a[0], b[0]))
 			return
 		}
-		if k.Spell == "hex" {
+		if k.Spell == "hex" || k.Spell == "HEX" {
 			written = (len(s) - 2) * 4
 			// the Go-value form has no notion of leading zero digits: compare the
 			// minimal width only
@@ -653,7 +659,7 @@ func work(ctx *runner.Ctx) {
 		for _, w := range ws {
 			for _, val := range scalarVals(kind, w) {
 				m := Member{T: TDesc{Kind: kind, Bits: w}, Vals: []string{val}}
-				for _, sp := range []string{"dec", "hex", "bin"} {
+				for _, sp := range []string{"dec", "hex", "bin", "HEX"} {
 					for _, gt := range gotypes {
 						if gt != "smallest" && (sp != "dec" || !strings.HasPrefix(gt, kind)) {
 							continue
@@ -714,10 +720,14 @@ func work(ctx *runner.Ctx) {
 						for _, p := range pats {
 							m := Member{T: TDesc{Kind: kind, Bits: e, N: n, ElKind: elk}, Vals: p}
 							cases = append(cases, cs{Mode: "encode", Members: []Member{m}, Spell: "hex", GoType: "smallest"})
+							cases = append(cases, cs{Mode: "encode", Members: []Member{m}, Spell: "HEX", GoType: "smallest"})
 							if given == n {
 								cases = append(cases, cs{Mode: "result", Members: []Member{m}})
 								if (e == 8 || (kind == "slice" && elk == "uint" && (e == 16 || e == 64))) && n > 0 {
 									cases = append(cases, cs{Mode: "sizes", Members: []Member{m}, Spell: "hex", GoType: "smallest"})
+									if e == 8 {
+										cases = append(cases, cs{Mode: "sizes", Members: []Member{m}, Spell: "HEX", GoType: "smallest"})
+									}
 								}
 							}
 						}
